@@ -17,8 +17,9 @@ static void hvec(Hash64& h, const std::vector<T>* v, F f) {
 	for (auto& e : *v) f(h, e);
 }
 
-uint64_t batteryDigest(NifFile& nif, Ctx& ctx, uint64_t sampleSalt) {
+uint64_t batteryDigest(NifFile& nif, Ctx& ctx, uint64_t sampleSalt, BatteryTrace* trace, bool headerTables) {
 	Hash64 h;
+	auto MARK = [&](const std::string& label) { if (trace) trace->push_back({label, h.h}); };
 	auto& hdr = nif.GetHeader();
 	uint32_t nb = hdr.GetNumBlocks();
 	h.i(nb);
@@ -59,6 +60,7 @@ uint64_t batteryDigest(NifFile& nif, Ctx& ctx, uint64_t sampleSalt) {
 		h.i(s->HasUVs());
 		auto b = s->GetBounds();
 		hv3(h, b.center); h.f(b.radius);
+		MARK("shape:" + s->name.get() + ":basic");
 		bid(nif.GetShader(s));
 		bid(nif.GetMaterialProperty(s));
 		bid(nif.GetStencilProperty(s));
@@ -73,6 +75,7 @@ uint64_t batteryDigest(NifFile& nif, Ctx& ctx, uint64_t sampleSalt) {
 			hvec(h, &t, hv3);
 			hvec(h, &bt, hv3);
 		}
+		MARK("shape:" + s->name.get() + ":refs+tangentdata");
 		h.i(nif.IsSSECompatible(s));
 		for (auto& r : nif.GetTexturePathRefs(s)) h.str(r.get());
 		for (uint32_t slot = 0; slot < 10; slot++) {
@@ -82,8 +85,11 @@ uint64_t batteryDigest(NifFile& nif, Ctx& ctx, uint64_t sampleSalt) {
 		}
 		for (auto& r : nif.GetExternalGeometryPathRefs(s)) h.str(r.get());
 
+		MARK("shape:" + s->name.get() + ":textures");
 		hvec(h, nif.GetVertsForShape(s), hv3);
+		MARK("shape:" + s->name.get() + ":verts");
 		hvec(h, nif.GetNormalsForShape(s), hv3);
+		MARK("shape:" + s->name.get() + ":normals");
 		hvec(h, nif.GetUvsForShape(s), [](Hash64& hh, const Vector2& u) { hh.f(u.u); hh.f(u.v); });
 		hvec(h, nif.GetColorsForShape(s), [](Hash64& hh, const Color4& c) { hh.f(c.r); hh.f(c.g); hh.f(c.b); hh.f(c.a); });
 		hvec(h, nif.GetTangentsForShape(s), hv3);
@@ -106,6 +112,7 @@ uint64_t batteryDigest(NifFile& nif, Ctx& ctx, uint64_t sampleSalt) {
 			h.i((long long) tris.size());
 			for (auto& t3 : tris) { h.i(t3.p1); h.i(t3.p2); h.i(t3.p3); }
 		}
+		MARK("shape:" + s->name.get() + ":geometry");
 		// skin
 		setStage("battery:skin");
 		std::vector<std::string> bones;
@@ -150,6 +157,7 @@ uint64_t batteryDigest(NifFile& nif, Ctx& ctx, uint64_t sampleSalt) {
 			MatTransform bx;
 			h.i(nif.GetShapeTransformSkinToBone(s, std::string("__no_such_bone__"), bx));
 		}
+		MARK("shape:" + s->name.get() + ":skin");
 		setStage("battery:parts");
 		NiVector<BSDismemberSkinInstance::PartitionInfo> pi;
 		std::vector<int> tp;
@@ -170,6 +178,7 @@ uint64_t batteryDigest(NifFile& nif, Ctx& ctx, uint64_t sampleSalt) {
 		for (auto v : ts) h.i(v);
 	}
 
+	MARK("shapes-done");
 	setStage("battery:tree");
 	{
 		std::vector<NiObject*> tree;
@@ -177,6 +186,7 @@ uint64_t batteryDigest(NifFile& nif, Ctx& ctx, uint64_t sampleSalt) {
 		h.i((long long) tree.size());
 		for (auto o : tree) bid(o);
 	}
+	MARK("tree");
 	setStage("battery:nodes");
 	for (size_t ni = 0; ni < nodes.size(); ni++) {
 		if (!take(ni, nodes.size())) continue;
@@ -208,7 +218,9 @@ uint64_t batteryDigest(NifFile& nif, Ctx& ctx, uint64_t sampleSalt) {
 		h.str(nif.GetNodeName(0));
 		for (auto c : nif.GetChildren<NiNode>(nullptr, true)) bid(c);
 	}
+	MARK("nodes");
 	setStage("battery:header");
+	if (headerTables) {
 	h.i(hdr.GetStringCount());
 	for (uint32_t i = 0; i < nb && i < 400; i++) {
 		h.str(hdr.GetBlockTypeStringById(i));
@@ -219,6 +231,11 @@ uint64_t batteryDigest(NifFile& nif, Ctx& ctx, uint64_t sampleSalt) {
 	h.i(hdr.GetBlockSize(nb));
 	h.str(hdr.GetStringById(hdr.GetStringCount()));
 	h.i(hdr.FindStringId("__no_such_string__"));
+	}
+	else {
+		for (uint32_t i = 0; i < nb && i < 400; i++) h.str(hdr.GetBlockTypeStringById(i));
+	}
+	MARK("header");
 	h.i(hdr.GetBlock<NiObject>(nb) != nullptr);
 	h.i(hdr.GetBlock<NiObject>(NIF_NPOS) != nullptr);
 	setStage("battery:done");
